@@ -385,6 +385,7 @@ class SimNet(object):
     def __init__(self, sim, lat=(0.0005, 0.005), chunk_mode='mixed', sndbuf=1 << 20,
                  partial_write_p=0.0, short_read_p=0.0, gap_p=0.2):
         self.sim = sim
+        sim.fault_counter = self.count
         self.lat = lat
         self.chunk_mode = chunk_mode
         self.sndbuf = sndbuf
